@@ -75,9 +75,10 @@ public:
       {
         if(other.data->ref)
         {
-          Atomic::increment(other.data->ref);
+          Data* otherData = other.data; // other might be part of the value that is about to be released
+          Atomic::increment(otherData->ref);
           clear();
-          data = other.data;
+          data = otherData;
         }
         else
           clear();
@@ -101,10 +102,11 @@ public:
     {
       if(data->type != textType || data->ref > 1)
       {
-        clear();
-        data = (Data*)new char[sizeof(Data) + sizeof(String)];
-        String* string = (String*)(data + 1);
+        Data* newData = (Data*)new char[sizeof(Data) + sizeof(String)]; // other might be part of the value that is about to be released
+        String* string = (String*)(newData + 1);
         new (string) String(other);
+        clear();
+        data = newData;
         data->type = textType;
         data->ref = 1;
       }
